@@ -145,12 +145,41 @@ def run_property(pid, P, tier, seed):
         reported.add(m)
         i2, ms2, ab2, v2, _ = S.evaluate([m])
         co, po, step, detail = v2[m]
+        context = None; ctx_note = None
+        if po:
+            ctx_note = 'fails within the generated batch but no short preceding context reproduced it' 
+            # the case fails in the batch but not on its own: the implementation carries state from one call sequence to the next (a static
+            # or thread_local buffer, a file left behind).  Find a short list of earlier cases after which it fails again; they are part of the replay.
+            m = c
+            route = (P.get('route') or default_route)
+            preds = [x for x in cases[:cases.index(c)] if len(S.exes) == 1 or route(x) == route(c)] if c in cases else []
+            def fails_after(ctx):
+                _, _, _, vv, _ = S.evaluate(ctx + [c]); return not vv[c][1]
+            k = 1; context = None
+            while k <= max(1, len(preds)):
+                ctx = preds[-k:]
+                if fails_after(ctx): context = ctx; break
+                if k >= len(preds): break
+                k = min(len(preds), k * 4)
+            if context is not None:
+                for _ in range(12):                       # drop what is not needed, front first, in halves
+                    if len(context) <= 1: break
+                    half = context[len(context) // 2:]
+                    if fails_after(half): context = half
+                    else:
+                        rest = context[:len(context) // 2]
+                        if len(rest) < len(context) and fails_after(rest): context = rest
+                        else: break
+            if context is not None: ctx_note = 'the case fails only when the cases listed under "context" have run before it in the same process (state carried across calls)'
+            i2, ms2, ab2, v2, _ = S.evaluate((context or []) + [c])
+            co, po, step, detail = v2[c]
         hit = None
         for k in known:
             if re.search(k['match'], m): hit = k
         if hit:
             lines.append('KNOWN-FINDING: property=%s %s' % (pid, hit['what'])); continue
-        rp = write_replay(pid, {'property': pid, 'kind': 'failing-input', 'case': m, 'original_case': c, 'step': step,
+        rp = write_replay(pid, {'property': pid, 'kind': 'failing-input', 'case': m, 'original_case': c, 'step': step, 'context': context,
+                                'context_note': ctx_note,
                                 'implementation': i2.get(m), 'model_and_spec': ms2.get(m), 'abort': ab2.get(m),
                                 'differs_at': diff_positions(detail[2], detail[3]) if detail else None,
                                 'seed': seed, 'tier': tier, 'harness': P['harness'], 'flags': ' '.join(P.get('flags') or CXX_QUICK)})
